@@ -79,6 +79,133 @@ theorem scanStepGen_eq_model (g : Glob) (h : Hdr) : scanStepGen g h = C11.scanSt
 theorem scanGen_eq_model (g : Glob) (hs : List Hdr) : C11.scanWith scanStepGen g hs = C11.scan g hs :=
   C11.scanWith_eq scanStepGen scanStepGen_eq_model g hs
 
+def memberGen (h : Hdr) : Nat :=
+  match h.member with
+  | some k => k
+  | none => 0
+def virtualGen (g : Geo) (h : Hdr) : Bool :=
+  if h.member.isNone && g.containsEns then true else false
+def virtTargetsGen (g : Geo) : List Nat := List.range' 1 (g.ensSize - 1)
+def virtSrcGen : Nat := 0
+/-- slots a series is stored in: its own, then the virtual-ensemble references -/
+def targetsGen (g : Geo) (h : Hdr) : List Nat :=
+  memberGen h :: (if virtualGen g h then virtTargetsGen g else [])
+def nValuesFullGen (g : Geo) (h : Hdr) : Option Int :=
+  match g.dt with
+  | some _ =>
+    match h.step with
+    | none => none
+    | some d => if d = 0 then none else some (roundDivP1 (h.stop - h.start) d)
+  | none => some ((bisectLeft g.times h.stop : Int) - (bisectLeft g.times h.start : Int) + 1)
+def rawGen (binary : Bool) (n : Nat) (evs : List XVal) (stream : Option (List XVal)) :
+    List XVal × Option (List XVal) :=
+  if binary then
+    match stream with
+    | some st => (st.take n, some (st.drop n))
+    | none => (nans n, none)
+  else (evs.take (min n evs.length) ++ nans (n - (min n evs.length)), stream)
+def missGen (miss v : XVal) : XVal := if v = miss then XVal.nan else v
+def padFrontFullGen (g : Geo) (h : Hdr) : Int :=
+  if h.start > g.start then
+    match g.dt with
+    | some _ => roundDiv (h.start - g.start) (h.step.getD 1)
+    | none => (bisectLeft g.times h.start : Int) - (bisectLeft g.times g.start : Int)
+  else 0
+def padBackFullGen (g : Geo) (h : Hdr) : Int :=
+  if h.stop < g.stop then
+    match g.dt with
+    | some _ => roundDiv (g.stop - h.stop) (h.step.getD 1)
+    | none => (bisectLeft g.times g.stop : Int) - (bisectLeft g.times h.stop : Int)
+  else 0
+def asmGen (pf pb : Nat) (v : List XVal) : List XVal := (nans pf ++ v) ++ nans pb
+def entryGen (h : Hdr) (vals : List XVal) : Entry := ⟨h.var, h.unit, vals⟩
+
+def readSeriesGen (g : Geo) (binary : Bool) (r : Rec) (stream : Option (List XVal)) :
+    Option (List XVal × Option (List XVal)) :=
+  C11.readSeriesWith nValuesFullGen rawGen missGen padFrontFullGen padBackFullGen asmGen g binary r stream
+
+def fillGen (g : Geo) (binary : Bool) (rs : List Rec) (stream : Option (List XVal)) (slots : List Slot) :
+    Option (List Slot) :=
+  C11.fillWith readSeriesGen targetsGen entryGen g binary rs stream slots
+
+/-- the array referenced by the virtual members is the one the series itself was stored in -/
+theorem virtSrcGen_is_member (g : Geo) (h : Hdr) (hv : virtualGen g h = true) : memberGen h = virtSrcGen := by
+  unfold virtualGen at hv
+  unfold memberGen virtSrcGen
+  cases hm : h.member with
+  | none => rfl
+  | some k => simp [hm] at hv
+
+theorem targetsGen_eq_model (g : Geo) (h : Hdr) (hp : 0 < g.ensSize) : targetsGen g h = C11.targets g h := by
+  unfold targetsGen C11.targets memberGen virtualGen virtTargetsGen
+  cases hm : h.member with
+  | some k => simp
+  | none =>
+    cases hc : g.containsEns with
+    | false => simp
+    | true =>
+      simp only [Option.isNone_none, Bool.and_self, if_true]
+      exact C11.zero_cons_range' g.ensSize hp
+
+theorem nValuesFullGen_eq_model (g : Geo) (h : Hdr) : nValuesFullGen g h = C11.nValues g h := by
+  unfold nValuesFullGen C11.nValues
+  cases g.dt with
+  | none => first | rfl | (simp only [Option.some.injEq]; omega)
+  | some d0 =>
+    cases h.step with
+    | none => rfl
+    | some d => rfl
+
+theorem rawGen_eq_model : rawGen = C11.rawRef := by
+  funext binary n evs stream
+  unfold rawGen C11.rawRef
+  cases binary with
+  | true => rfl
+  | false =>
+    simp only [Bool.false_eq_true, if_false]
+    first
+      | rw [C11.take_min_pad]
+      | (rw [Nat.min_comm, C11.take_min_pad])
+
+theorem missGen_eq_model : missGen = C11.missMap := by
+  funext miss v
+  unfold missGen C11.missMap
+  first | rfl | (by_cases hh : v = miss <;> simp [hh, eq_comm])
+
+theorem padFrontFullGen_eq_model (g : Geo) (h : Hdr) : padFrontFullGen g h = C11.padFront g h := by
+  unfold padFrontFullGen C11.padFront
+  cases g.dt <;> rfl
+
+theorem padBackFullGen_eq_model (g : Geo) (h : Hdr) : padBackFullGen g h = C11.padBack g h := by
+  unfold padBackFullGen C11.padBack
+  cases g.dt <;> rfl
+
+theorem asmGen_eq_model : asmGen = C11.asmRef := by
+  funext pf pb v
+  unfold asmGen C11.asmRef
+  first | rfl | simp [List.append_assoc]
+
+theorem readSeriesGen_eq_model (g : Geo) (binary : Bool) (r : Rec) (stream : Option (List XVal)) :
+    readSeriesGen g binary r stream = C11.readSeries g binary r stream := by
+  have h1 : nValuesFullGen = C11.nValues := by funext g h; exact nValuesFullGen_eq_model g h
+  have h2 : padFrontFullGen = C11.padFront := by funext g h; exact padFrontFullGen_eq_model g h
+  have h3 : padBackFullGen = C11.padBack := by funext g h; exact padBackFullGen_eq_model g h
+  unfold readSeriesGen
+  rw [h1, h2, h3, rawGen_eq_model, missGen_eq_model, asmGen_eq_model]
+  exact C11.readSeriesRef_eq g binary r stream
+
+/-- the whole second pass (every series: values, padding, slot assignment, units) -/
+theorem fillGen_eq_model (g : Geo) (hp : 0 < g.ensSize) (binary : Bool) (rs : List Rec)
+    (stream : Option (List XVal)) (slots : List Slot) :
+    fillGen g binary rs stream slots = C11.fill g binary rs stream slots := by
+  unfold fillGen
+  exact C11.fillWith_eq readSeriesGen targetsGen entryGen g binary
+    (fun r st => readSeriesGen_eq_model g binary r st) (fun h => targetsGen_eq_model g h hp)
+    (fun h v => rfl) rs stream slots
+
+example : targetsGen ⟨some 3600, 0, 7200, [], true, 3⟩ ⟨0, none, some 3600, 0, 3600, none, XVal.fin (-999), "m"⟩ = [0, 1, 2] := by
+  decide
+
 def hdrMemberGen (s : Store) (m : Nat) : Option Nat := if s.containsEns then some m else none
 def hdrForecastGen (s : Store) : Option Int := if s.forecast ≠ s.start then some s.forecast else none
 def hdrStepFullGen (s : Store) : Option Int :=
@@ -149,5 +276,36 @@ theorem writeGen_eq_model (r32 : XVal → XVal) (binary : Bool) (s : Store) :
   unfold writeGen
   exact C11.writeWith_eq recsFromGen streamGen (fun s b k sl => recsFromGen_eq_model s b k sl)
     streamGen_eq_model r32 binary s
+
+def globInitGen : Glob := { dt := none, start := none, stop := none, forecast := none, containsEns := false, ensSize := 1 }
+def timesEqGen' (start d stop : Int) : List Int := (List.range (roundDivP1 (stop - start) d).toNat).map (fun (i : Nat) => start + (i : Int) * d)
+def longestGen : List Int → List Rec → List Int
+  | cur, [] => cur
+  | cur, r :: rs => longestGen (if r.evTimes.length > cur.length then r.evTimes else cur) rs
+def fcGen (dt : Option Int) (start x : Int) : Int :=
+  match dt with
+  | some d => C11.floorDT start d x
+  | none => x
+def fcIdxGen (x : Int) (ts : List Int) : Int := if x ∈ ts then (ts.idxOf x : Int) else -1
+def trimGen (ts : List Int) (start stop : Int) : List Int := (ts.take (bisectLeft ts stop + 1)).drop (bisectLeft ts start)
+
+/-- `pi.Timeseries.__init__` on an existing file: all pieces in the skeleton of Proofs/C11RecRef -/
+def readGen (binary : Bool) (f : File) : Option Store :=
+  C11.readWith globInitGen scanStepGen timesEqGen' (longestGen []) fcGen fcIdxGen trimGen fillGen binary f
+
+theorem longestGen_eq_model (cur : List Int) (rs : List Rec) : longestGen cur rs = C11.longestTimes cur rs := by
+  induction rs generalizing cur with
+  | nil => rfl
+  | cons r rs ih =>
+    unfold longestGen C11.longestTimes
+    exact ih _
+
+/-- **the whole reader**: the translated `__init__` is the model function `read` of `C11_pi_roundtrip` -/
+theorem readGen_eq_model (binary : Bool) (f : File) : readGen binary f = C11.read binary f := by
+  unfold readGen
+  exact C11.readWith_eq globInitGen scanStepGen timesEqGen' (longestGen []) fcGen fcIdxGen trimGen fillGen
+    rfl scanStepGen_eq_model (fun s d e => rfl) (fun rs => longestGen_eq_model [] rs)
+    (fun dt s x => rfl) (fun x ts => rfl) (fun ts s e => rfl)
+    (fun g b rs st sl hp => fillGen_eq_model g hp b rs st sl) binary f
 
 end RtcVerif.Gen
